@@ -145,6 +145,16 @@ let () =
             Some (Printf.sprintf "H %d %d" !kind !typ)
           end else
           match !kind with
+          (* mnext walks: the number of elements the iterator model visits *)
+          | 1 | 10 when op = 17 ->
+            let n = (match vec_ipairs !vecs with Ok (_, l) -> string_of_int (List.length l) | Trap t -> "TRAP " ^ trap_name t) in
+            Some ("m" ^ n ^ vec_line () ^ " || m" ^ n ^ vspec_line ())
+          | 2 | 11 when op = 17 ->
+            let n = (match seq_pairs (z_of_int 0) !seqs with Ok (_, l) -> string_of_int (List.length l) | Trap t -> "TRAP " ^ trap_name t) in
+            Some ("m" ^ n ^ seq_line () ^ " || m" ^ n ^ sspec_line ())
+          | 3 | 13 when op = 13 ->
+            let n = (match dl_pairs !dls with Ok (_, l) -> string_of_int (List.length l) | Trap t -> "TRAP " ^ trap_name t) in
+            Some ("m" ^ n ^ dl_line () ^ " || m" ^ n ^ lspec_line ())
           | 1 | 10 when op = 16 -> Some ("c2" ^ vec_line () ^ " || c2" ^ vspec_line ())
           | 2 | 11 when op = 16 -> Some ("c2" ^ seq_line () ^ " || c2" ^ sspec_line ())
           | 3 | 13 when op = 12 -> Some ("c2" ^ dl_line () ^ " || c2" ^ lspec_line ())
@@ -375,6 +385,17 @@ let () =
              | 12 -> Some (dec_of_z (hash_span_int [z_of_i64 a; z_of_i64 b; z_of_i64 (Int64.logxor a b)]))
              | 13 -> Some (dec_of_z (hash_union8 (z_of_i64 a)))
              | 14 -> Some (dec_of_z (hash_array hash_int []))
+             | 15 -> Some (dec_of_z (hash_float32 (zbits_of_i64 (Int64.logand a 0xffffffffL))))
+             | 16 -> Some (if g_eqb (zbits_of_i64 (Int64.logand a 0xffffffffL)) (zbits_of_i64 (Int64.logand b 0xffffffffL)) then "1" else "0")
+             | 17 -> Some (sn (select_count [a; b; Int64.logxor a b]))
+             | 18 -> (match select_from (z_of_int 2) [a; b; Int64.logxor a b] with
+                 | Some l -> Some (String.concat " " (List.map Int64.to_string l)) | None -> Some "none")
+             | 19 -> (match select_from (z_of_int (-1)) [a; b; Int64.logxor a b] with
+                 | Some l -> Some (String.concat " " (List.map Int64.to_string l)) | None -> Some "none")
+             | 20 -> let s1 = sbbytes (Int64.to_int a) (Int64.to_int b) in
+                     let s3 = s1 @ [z_of_int 120] in
+                     let b2s x = if x then "1" else "0" in
+                     Some (Printf.sprintf "%s %s %s" (b2s (str_eqb s1 s1)) (b2s (hash_string s1 = hash_string s1)) (b2s (str_eqb s1 s3)))
              | _ -> Some "?")
           | _ -> Some "?"
         with e -> Some ("!exn " ^ Printexc.to_string e)
